@@ -64,9 +64,36 @@ type Config struct {
 
 type ExternFn func(ex *Exec, caller *frame, fn *ssa.Function, args []Value) Value
 
+// scratchModfile copies the module's go.mod/go.sum to a scratch directory and
+// returns the -modfile flag for them: with -mod=mod the go command may rewrite
+// go.mod (e.g. when a harness imports a module the package did not import
+// directly) and that must never touch the repository under test.
+func scratchModfile(dir string) (flag string, cleanup func()) {
+	tmp, err := os.MkdirTemp("/var/tmp", "verif-modfile-")
+	if err != nil {
+		return "", func() {}
+	}
+	for _, f := range []string{"go.mod", "go.sum"} {
+		b, err := os.ReadFile(filepath.Join(dir, f))
+		if err != nil {
+			if f == "go.mod" {
+				os.RemoveAll(tmp)
+				return "", func() {}
+			}
+			continue
+		}
+		os.WriteFile(filepath.Join(tmp, f), b, 0644)
+	}
+	return "-modfile=" + filepath.Join(tmp, "go.mod"), func() { os.RemoveAll(tmp) }
+}
+
 func LoadEngine(cfg Config) (*Engine, error) {
 	t0 := time.Now()
 	fset := token.NewFileSet()
+	if mf, cleanup := scratchModfile(cfg.Dir); mf != "" {
+		defer cleanup()
+		cfg.BuildFlags = append(append([]string(nil), cfg.BuildFlags...), mf)
+	}
 	pcfg := &packages.Config{
 		Mode:       packages.LoadAllSyntax,
 		Dir:        cfg.Dir,
